@@ -15,4 +15,9 @@ for p in history storm mirror twin blast writer; do
     "$BIN/utapsim.plain" determinism --profile $p --seed 5 --runs "${VERIF_DETERMINISM_SEEDS:-150}" --workers 8 | tail -1 || rc=2
 done
 "$BIN/utapsim.asan" determinism --profile history --seed 6 --runs 40 --workers 8 | tail -1 || rc=2
+# the families that add seams or fault kinds of their own
+for pf in storm:envfault:60 history:sweep:12 history:clockreal:12 writer:iofault:60 writer:realfile:60 writer:branchpoints:40 mirror:comment-in-text:40; do
+    IFS=: read -r p f n <<< "$pf"
+    "$BIN/utapsim.plain" determinism --profile "$p" --family "$f" --seed 7 --runs "$n" --workers 8 | tail -1 || rc=2
+done
 exit $rc
